@@ -735,10 +735,16 @@ impl Conjunction for BoundedVariantRange {
     type Output = Self;
 
     fn conjunction(self, rhs: Self) -> Self::Output {
-        match NaturalRange::by_bound_with(self.into(), rhs.into(), ops::conjunction) {
-            Variance::Variant(Bounded(range)) => range,
-            _ => unreachable!(),
-        }
+        // An unbounded lower bound is zero, which is the identity rather than the annihilator of
+        // the sum of lower bounds (unlike an unbounded upper bound).
+        let lower = ops::conjunction(self.lower().into_usize(), rhs.lower().into_usize());
+        let upper = self
+            .upper()
+            .into_usize()
+            .zip(rhs.upper().into_usize())
+            .map(|(lhs, rhs)| ops::conjunction(lhs, rhs));
+        BoundedVariantRange::try_from_lower_and_upper(lower, upper)
+            .expect("conjunction of bounded ranges is unbounded")
     }
 }
 
